@@ -1,4 +1,94 @@
 package main
 
-func cmdReplay(args []string) int   { return 2 }
-func cmdSelftest(args []string) int { return 2 }
+import (
+	"encoding/json"
+	"fmt"
+	"os"
+	"os/exec"
+	"path/filepath"
+	"reflect"
+	"strings"
+)
+
+// fvc replay <file>: show a replay file and, when it carries a test built from a solver model,
+// run that test again on the real code (go test -overlay; nothing is written to /repo).
+// Exit status 1 when a confirmed counterexample still behaves as recorded, 0 otherwise.
+func cmdReplay(args []string) int {
+	if len(args) < 1 {
+		usage()
+	}
+	data, err := os.ReadFile(args[0])
+	if err != nil {
+		fmt.Fprintln(os.Stderr, "fvc:", err)
+		return 2
+	}
+	var d map[string]interface{}
+	if json.Unmarshal(data, &d) != nil {
+		fmt.Fprintln(os.Stderr, "fvc: unreadable replay file")
+		return 2
+	}
+	fmt.Printf("obligation: %v\nfunction:   %v\nclause:     %v\npath:       %v\nstatus:     %v\n", d["obligation"], d["function"], d["clause"], d["path"], d["status"])
+	if off, ok := d["offenders"]; ok {
+		fmt.Printf("offenders:  %v\n", off)
+	}
+	if r, ok := d["reason"]; ok {
+		fmt.Printf("reason:     %v\n", r)
+	}
+	rep, _ := d["replay"].(map[string]interface{})
+	if rep == nil {
+		fmt.Println("no replayable counterexample is attached (the solver output is in the file)")
+		return 0
+	}
+	fmt.Printf("inputs:     %v\nrecorded:   %v\nverdict:    %v\n", rep["inputs"], rep["observed"], rep["verdict"])
+	src, _ := rep["test"].(string)
+	if src == "" {
+		return 0
+	}
+	scratch := scratchDir()
+	defer os.RemoveAll(scratch)
+	testFile := filepath.Join(scratch, "zz_fvc_replay_test.go")
+	ovFile := filepath.Join(scratch, "overlay.json")
+	os.WriteFile(testFile, []byte(src), 0o644)
+	ov, _ := json.Marshal(map[string]interface{}{"Replace": map[string]string{filepath.Join(repoDir(), "zz_fvc_replay_test.go"): testFile}})
+	os.WriteFile(ovFile, ov, 0o644)
+	cmd := exec.Command("go", "test", "-overlay", ovFile, "-vet=off", "-count=1", "-timeout", "60s", "-run", "^TestFvcReplay$", "-v", ".")
+	cmd.Dir = repoDir()
+	cmd.Env = append(os.Environ(), "GOFLAGS=-mod=mod", "GOPROXY=off", "GOSUMDB=off", "GOTOOLCHAIN=local")
+	outB, _ := cmd.CombinedOutput()
+	out := string(outB)
+	idx := strings.Index(out, "FVC-REPLAY ")
+	if idx < 0 {
+		fmt.Println("re-run:     the test did not run:\n" + trimOut(out))
+		return 0
+	}
+	line := out[idx+len("FVC-REPLAY "):]
+	if j := strings.Index(line, "\n"); j >= 0 {
+		line = line[:j]
+	}
+	var obs map[string]interface{}
+	json.Unmarshal([]byte(line), &obs)
+	fmt.Printf("re-run:     %v\n", obs)
+	same := reflect.DeepEqual(obs, rep["observed"])
+	confirmed := strings.HasPrefix(fmt.Sprint(rep["verdict"]), "confirmed")
+	if same && confirmed {
+		fmt.Println("the real code still behaves as in the recorded counterexample")
+		return 1
+	}
+	if !same {
+		fmt.Println("the real code now behaves differently from the recorded counterexample")
+	}
+	return 0
+}
+
+// fvc selftest: the must-fail corpus (mutants and seeded changes) and the canaries.
+func cmdSelftest(args []string) int {
+	rc := 0
+	for _, sc := range []string{"selftest/run.sh", "selftest/canaries.sh"} {
+		cmd := exec.Command(filepath.Join(verifDir(), sc), args...)
+		cmd.Stdout, cmd.Stderr = os.Stdout, os.Stderr
+		if cmd.Run() != nil {
+			rc = 1
+		}
+	}
+	return rc
+}
